@@ -168,7 +168,7 @@ class Env:
     def _progress(self):
         return self.W.nprog
 
-    def pump(self, limit=2000):
+    def pump(self, limit=200000):
         for i in range(limit):
             if not self.turn():
                 return i
